@@ -321,7 +321,7 @@ func runC20(r *rt.Runner) {
 	})
 
 	// --- uniform identifiers -----------------------------------------------------
-	batches := r.Scale(1000, 100000)
+	batches := r.Scale(1000, 400000)
 	const per = 1000
 	for b := 0; b < batches; b++ {
 		r.Do(fmt.Sprintf("ids/uniform/%d", b), func(c *rt.C) {
@@ -400,7 +400,7 @@ func runC20(r *rt.Runner) {
 		c.Sample(map[string]any{"strings": list[:12]})
 	})
 
-	sbatches := r.Scale(200, 20000)
+	sbatches := r.Scale(200, 80000)
 	for b := 0; b < sbatches; b++ {
 		r.Do(fmt.Sprintf("str/random/%d", b), func(c *rt.C) {
 			dg := getDigits(c)
